@@ -28,6 +28,11 @@ done
 for f in $(cd $SRC/demo$N && find . -path '*/src/*.rs' -type f); do
   crate=$(echo $f | cut -d/ -f2); t=$(basename $f .rs); DEMO_ARGS="$DEMO_ARGS|-p $crate $t"
 done
+# demos shipped only as a diff that appends a #[cfg(test)] module: run that module's tests
+for d in $(ls $SRC/demo$N/*.diff 2>/dev/null); do
+  crate=$(grep -m1 '^+++ b/' $d | sed -E 's#^\+\+\+ b/([^/]+)/.*#\1#'); m=$(grep -m1 -oE '^\+mod seeded_[A-Za-z0-9_]+' $d | sed 's/^+mod //')
+  if [ -n "$m" ] && ! echo "$DEMO_ARGS" | grep -q "$m"; then DEMO_ARGS="$DEMO_ARGS|-p $crate $m"; fi
+done
 run_demo() { # returns 0 if all demo targets pass
   local ok=0
   for py in $(cd $SRC/demo$N && find . -name '*.py' -type f); do
